@@ -273,6 +273,45 @@ func c14eRunCase(t *testing.T, h *vHarness, helper *sysutil.FileTestUtil, execut
 				nDecl++
 			}
 		}
+		// init containers declaring batch resources (request and limit, or a request WITHOUT a limit): the statement's sums
+		// range over spec.containers only - so does the webhook's dump - and the pod-level values must not depend on them
+		nInit := 0
+		if fx == nil && r.Chance(1, 2) {
+			nInit = r.Range(1, 2)
+		}
+		for i := 0; i < nInit; i++ {
+			ic := corev1.Container{Name: fmt.Sprintf("i%d", i)}
+			reqs, lims := corev1.ResourceList{}, corev1.ResourceList{}
+			if !r.Chance(1, 6) {
+				reqs[apiext.BatchCPU] = *resource.NewQuantity(int64(r.Range(0, 4000)), resource.DecimalSI)
+			}
+			if r.Chance(2, 3) {
+				lims[apiext.BatchCPU] = *resource.NewQuantity(int64(r.Range(1, 8000)), resource.DecimalSI)
+			}
+			if r.Chance(2, 3) {
+				m := *resource.NewQuantity(int64(r.Range(1, 1<<30)), resource.BinarySI)
+				lims[apiext.BatchMemory] = m
+				if r.Bool() {
+					reqs[apiext.BatchMemory] = m
+				}
+			} else if r.Bool() {
+				reqs[apiext.BatchMemory] = *resource.NewQuantity(int64(r.Range(1, 1<<20)), resource.BinarySI)
+			}
+			ic.Resources = corev1.ResourceRequirements{Requests: reqs, Limits: lims}
+			pod.Spec.InitContainers = append(pod.Spec.InitContainers, ic)
+			if r.Bool() {
+				pod.Status.InitContainerStatuses = append(pod.Status.InitContainerStatuses, corev1.ContainerStatus{Name: ic.Name, ContainerID: "containerd://" + uid + ic.Name})
+			}
+			switch {
+			case len(reqs) == 0 && len(lims) == 0:
+				h.Tag("init-ctr:declares-nothing")
+			case len(lims) < 2:
+				h.Tag("init-ctr:batch-limit-absent")
+			default:
+				h.Tag("init-ctr:batch-limited")
+			}
+		}
+		h.Tag(fmt.Sprintf("init-ctrs:%d", nInit))
 
 		// ---------------- the annotation shape ----------------
 		ann := c14eAnnValid
@@ -782,6 +821,45 @@ func c14eRunCase(t *testing.T, h *vHarness, helper *sysutil.FileTestUtil, execut
 			}
 		}
 
+		// --- reconciler, pod cgroup created LATE: the first pass finds no cgroup dir (the executor ignores that error), the
+		// kubelet then creates the files with its own contents, the next pass submits the SAME values again (well within
+		// resource-force-update-seconds): the files the user looks at must hold the conversion all the same ---
+		if fx == nil {
+			late := init
+			if r.Bool() { // the kubelet's defaults for a pod that requests nothing native: shares 2, no quota, no memory limit
+				late = [3]int64{2, -1, 9223372036854771712}
+				if v2 {
+					late = [3]int64{1, -1, -1}
+				}
+			}
+			lateFiles := c14eFiles{c14eTok(c14eInit(v2, 0, late[0])), c14eTok(c14eInit(v2, 1, late[1])), c14eTok(c14eInit(v2, 2, late[2]))}
+			pass := func() {
+				for _, fn := range []func(protocol.HooksProtocol) error{p.SetPodCPUShares, p.SetPodCFSQuota, p.SetPodMemoryLimit} {
+					if !recRegistered {
+						continue
+					}
+					ctx := protocol.HooksProtocolBuilder.Pod(podMeta("m"))
+					if err := fn(ctx); err == nil {
+						ctx.ReconcilerDone(executor)
+					}
+				}
+			}
+			h.Op("late %d %d %d", late[0], late[1], late[2])
+			if h.Guard(func() {
+				pass() // cgroup dir missing
+				for kind := 0; kind < 3; kind++ {
+					c14eWriteFile(t, v2, podDir("m"), kind, c14eInit(v2, kind, late[kind]))
+				}
+				pass()
+			}) {
+				h.Obs("late pod panic")
+			} else {
+				got := c14eReadAll(v2, podDir("m"))
+				h.Obs("late pod %s", got)
+				judgePod("rec-late", true, got, lateFiles, -1)
+			}
+		}
+
 		// ================= rule callbacks on the pod as an EXISTING pod: a history; only the cfs quota files move =================
 		// step 0 is the initial sync (either callback kind); every later step is a rule event followed, as the rule framework
 		// does, by that rule's callback iff the parse function reported an update.  After every callback the files must hold
@@ -888,6 +966,8 @@ func c14eRunCase(t *testing.T, h *vHarness, helper *sysutil.FileTestUtil, execut
 const c14eRule = "one generated pod (0-4 spec containers declaring batch cpu request/limit, batch memory limit, or nothing; QoS by label/annotation/none) with an extended-resource-spec annotation of shape " +
 	"absent / \"\" / {} / {containers:null} / {containers:{}} / the webhook's dump / invalid JSON / null, cgroup v1 or v2, 0-2 rule callbacks (NodeSLO shapes nil / no strategy / policy unset / enable x policy; " +
 	"ratio annotation absent / malformed / 1.0 / >1 / <1 in several spellings); pushed through Pod+Container x FromNri/FromProxy/FromReconciler -> hooks -> NriDone/ProxyDone/ReconcilerDone and a history of 1-3 rule callbacks on the pod as an existing pod (each later one after a rule event that reported an update); " +
+	"the pod also carries 0-2 init containers declaring batch cpu / memory (limit sometimes absent; never part of the sums nor of the webhook's dump); " +
+	"one more reconciler pass pair on a pod cgroup that is missing at the first pass and created (kubelet defaults or random contents) before the second; " +
 	"observed: cgroup file contents, proxy responses, NRI adjustments; non-trivial = BE pod with >= 1 declaring container; distinct by op lines"
 
 // ---- exhaustive small scope (thorough tier): every annotation shape x BE/non-BE x cgroup v1/v2 x rule (default / CFS quota off /
